@@ -407,6 +407,19 @@ pub fn c41_ref_mut_then_ref<'a>(a: Stream<u32, P<'a>>) {
     bumped.chain(seen).all_ticks().embedded_output("out");
 }
 
+/// the value consumer of a referenced singleton is emitted BEFORE the operator that borrows it
+/// (outputs registered in that order): the partitioner must still order borrower before consumer
+pub fn c41_ref_borrower_after_consumer<'a>(a: Stream<u32, P<'a>>) {
+    let tick = a.location().tick();
+    let batch = a.batch(&tick, nondet!(/** test */));
+    let n = batch.clone().fold(q!(|| 0u32), q!(|acc, _x| *acc += 1));
+    let n_ref = n.by_ref();
+    let borrower = batch.clone().map(q!(|x| x + *n_ref));
+    let consumer = batch.cross_singleton(n);
+    consumer.all_ticks().embedded_output("first");
+    borrower.all_ticks().embedded_output("second");
+}
+
 // ------------------------------------------------------------------------------------ stages
 // typed building blocks for the generated compositions (src/generated.rs, written by
 // tools/hydrob.py from VERIF_SEED): every stage maps an unbounded totally ordered u32 stream of
